@@ -27,6 +27,8 @@ pub struct GenCfg {
     pub names_simple: bool,
     /// add `.debug_*` custom sections with junk payloads (only meaningful when DWARF generation is off)
     pub junk_debug: bool,
+    /// additionally export every function as `__f<index>` (lets oracles follow functions through reordering)
+    pub export_all_funcs: bool,
     pub dead_code: bool,
     pub start: bool,
     /// imported 64-bit memories (kept switchable: D2)
@@ -59,6 +61,7 @@ impl GenCfg {
             producers: false,
             names_simple: false,
             junk_debug: false,
+            export_all_funcs: false,
             dead_code: true,
             start: true,
             import_mem64: false,
@@ -87,6 +90,7 @@ impl GenCfg {
             producers: true,
             names_simple: false,
             junk_debug: false,
+            export_all_funcs: false,
             dead_code: true,
             start: true,
             import_mem64: true,
@@ -1179,6 +1183,12 @@ pub fn gen_module(rng: &mut Rng, cfg: &GenCfg) -> Generated {
     for (i, g) in globals.iter().enumerate() {
         if rng.chance(1, 3) && (!g.mutable || cfg.mutable_global_io) {
             export_sec.export(&format!("g{}", i), ExportKind::Global, i as u32);
+            nexports += 1;
+        }
+    }
+    if cfg.export_all_funcs {
+        for f in 0..funcs.len() as u32 {
+            export_sec.export(&format!("__f{}", f), ExportKind::Func, f);
             nexports += 1;
         }
     }
